@@ -229,6 +229,10 @@ def parse_obs(o):
             for e in it[1:]:
                 res["rib"][e[0]] = [dict(src=p[0], pid=p[1], best=p[2] == "1", stale=p[3] == "1", attrs=p[4] if len(p) > 4 else "",
                                         lid=int(p[6]) if len(p) > 6 else 0) for p in e[1:]]
+        elif it[0] == "rib6":
+            res.setdefault("rib6", {})
+            for e in it[1:]:
+                res["rib6"][e[0]] = [(p[0], p[1] == "1") for p in e[1:]]
         elif it[0] == "adjin":
             res["adjin"][it[1]] = ["%s %s" % (e[0], e[3] if len(e) > 3 else "") for e in it[2:]]
             res["adjin_raw"][it[1]] = [(e[0].split("#")[0], e[1] == "1", e[3] if len(e) > 3 else "") for e in it[2:]]
